@@ -55,7 +55,11 @@ def has_keyword_ident(prog):
 def cases(draw):
     over = dict(keywords=draw(st.booleans()), modules=draw(st.sampled_from([1, 1, 2, 3])), max_types=7, max_methods=3)
     over.update(STEER.get("js", {}))
-    p = S.profile_for(["c", "cpp", "js"], **over)
+    # one third of the programs use what only c/cpp accept (callbacks, &[&str], 'static slices); js rejects those and is skipped
+    bset = draw(st.sampled_from([["c", "cpp", "js"], ["c", "cpp", "js"], ["c", "cpp"]]))
+    if bset == ["c", "cpp"]:
+        over["cb_rate"] = 4
+    p = S.profile_for(bset, **over)
     prog = draw(S.programs(p))
     placed = []
     if draw(st.booleans()):
